@@ -9,7 +9,7 @@ sys.path.insert(0, os.path.dirname(os.path.dirname(os.path.abspath(__file__))))
 import common as C  # noqa: E402
 
 VARIANT = "san"
-GEN = ["Async"]
+GEN = ["Async", "InitTable"]
 HARNESS_FLAGS = ["-fno-access-control"]   # forced-order runs build the GlobalPlacer themselves to know &xtopo_ / &ytopo_
 RULE = "see stats"
 PARTIAL = [
@@ -29,9 +29,30 @@ PARTIAL = [
     "0x00 / 0xFF / 0xA5 / random patterns, where a crash is a difference too); the sanitizer-free build repeats all "
     "comparisons with glibc's M_PERTURB switched per run (ASan's allocator would hide heap reads); 40 (thorough: 150) small "
     "cases run under valgrind/memcheck, any error is a failure.  All of this is sampling, bounded by the generators",
-    "member-initialisation order / definite initialisation is not analysed statically (no translator facts about it); a read "
-    "of an indeterminate member is found only when it changes a compared result under the perturbations or when one of the "
-    "valgrind cases executes it.  MemorySanitizer is not used (no instrumented libstdc++ on this machine)",
+    "definite initialisation of scalar members is proved only for the static table + straight-line order model of "
+    "tools/gen/InitTable.py / Model/InitOrder.lean (theorems init_table_wellformed, ctor_verdicts_recomputed, "
+    "members_initialised_before_read): scalar (arithmetic / enum / pointer / reference) non-static data members of the classes "
+    "defined in src/place_global, src/place_detailed and of Circuit; per constructor a translated event list, recomputed "
+    "verdict `every constructor writes it`; for classes with a member some constructor leaves unset (today GlobalPlacer: step_, "
+    "penalty_, penaltyCutoffDistance_, approximationDistance_; IncrNetModel::value_; Transportation1dSolver::lastOccupiedSink / "
+    "optimalSink; TransportationProblem::conversionFactor_ (integer-cost constructor, used by no construction site of the "
+    "library); the aggregates ReorderingRegion, DensityGrid::BinGroup, verif::AssembledSystem) every construction site of the "
+    "analysed files with the statements that touch the object in source order, member functions inlined.  This is NOT a "
+    "path-sensitive or value-sensitive analysis: `if` = meet of both branches, loop / switch / try / lambda bodies never "
+    "contribute definite writes, conditions are ignored, anything that is not a plain assignment counts as a read.  NOT covered: "
+    "members of class type (std::vector, std::optional, std::mt19937, Eigen, nested library classes: they have constructors; "
+    "counted in the table), elements of containers (a vector resized without value, reserve + operator[]), local scalar "
+    "variables, the parameter structs of src/coloquinte.hpp (ColoquinteParameters & co: constructor-initialised in "
+    "parameters.cpp, outside the two directories), objects created inside standard containers (assumed value-initialised "
+    "by the allocator), accesses to a member of ANOTHER object of a weak class through a pointer / reference held elsewhere "
+    "(the lifecycle only follows the variable the object lives in and treats every other use of the variable as a read of "
+    "all members) and template code.  The walk is proved sound for a trace semantics of the events "
+    "(Proofs/InitOrderProofs.lean exec_sound; theorems no_read_before_write_in_any_execution, "
+    "ctor_initialised_in_every_execution); what stays trusted is that the extracted events over-approximate the C++ "
+    "(tools/gen/InitTable.py: evaluation order inside one expression is flattened to reads, then calls, then plain writes; "
+    "exceptions are `stop`; a lambda body is an opaque block at its definition).  Reads of indeterminate values outside this table are found only when "
+    "they change a compared result under the perturbations or when one of the valgrind cases executes them.  "
+    "MemorySanitizer is not used (no instrumented libstdc++ on this machine)",
     "parameters: the harness draws from the box accepted by ColoquinteParameters::check() restricted to maxNbSteps <= 14, CG "
     "tolerance >= 1e-6, approximation / cutoff distances in [0.1, 1000] (nbInitialSteps 0..4, nbStepsBeforeRoughLegalization "
     "1..3, all four net models, all six rough-legalization cost models, noise 0 / default / 1e-4..2, measured in the "
@@ -57,11 +78,19 @@ LEVEL_TEXT = ("Lean 4 theorems over the two-task protocol of GlobalPlacer::runLB
               "compared bit for bit across repeated runs, copies, permuted run orders in one process and across fresh "
               "processes (jobs with different parameter sets in different orders), callbacks, core affinities and forced "
               "completion orders (hook H1), with dead stack / heap contents perturbed before every run; sanitizer-free "
-              "re-run with M_PERTURB and a valgrind sample in both tiers; ThreadSanitizer run in the thorough tier")
+              "re-run with M_PERTURB and a valgrind sample in both tiers; ThreadSanitizer run in the thorough tier.  "
+              "Definite initialisation: a table of every scalar data member of the placement classes, every constructor / "
+              "member function as an event list and every construction site of the classes whose constructors leave a "
+              "member unset is regenerated from the clang AST; a decidable forward walk (written-on-every-path sets; "
+              "straight-line order, `if` as meet, loops opaque), proved sound for a trace semantics of the events, shows by "
+              "kernel evaluation that in no execution of the event lists a listed member is read before it is written")
 LEVEL_NOTE = ("Trusted: Lean kernel; tools/gen/Async.py (AST + nm) and the read/write model derived from it; std::async "
-              "semantics; the real memory accesses of the solves are checked by TSan only; sequential determinism and "
-              "initialisation are checked by differential runs / valgrind only.")
-TECHNIQUE = ("Lean 4 proof (exhaustive protocol exploration + homomorphism to arbitrary value domains) + translated facts + "
+              "semantics; the real memory accesses of the solves are checked by TSan only; sequential determinism is "
+              "checked by differential runs / valgrind only; initialisation of scalar members additionally by the "
+              "translated table (trusted: tools/gen/InitTable.py and the event semantics of Model/InitOrder.lean - not "
+              "path-sensitive, scalars of the placement classes only); everything else about initialisation is sampling.")
+TECHNIQUE = ("Lean 4 proof (exhaustive protocol exploration + homomorphism to arbitrary value domains; definite-initialisation "
+             "walk over a translated member / constructor / call-order table, decided in the kernel) + translated facts + "
              "bitwise differential runs (history / order / dead-memory perturbation) + valgrind + TSan")
 
 TSAN_ENV = {"TSAN_OPTIONS": "halt_on_error=0:exitcode=66:second_deadlock_stack=1"}
